@@ -397,6 +397,32 @@ def run(tier, seed):
             report("model-differs", {"kind": "model-differs", "part": "codec", "class": cls},
                    {"where": where, "case": {k: c.get(k) for k in ("v", "cm", "ser", "full", "truncs", "truncx")}}, no_input=True)
 
+    # ---------------------------------------------------------------- (d') many different modules, one process, concurrently
+    base = tempfile.mkdtemp(prefix="c13m_", dir=WORK)
+    try:
+        kmods, workers, rounds = (96, 16, 3) if tier == "quick" else (256, 16, 20)
+        rc, out = sh(LIMIT2 + [binp, "-mode", "many", "-seed", str(seed), "-dir", base, "-mods", str(kmods), "-conc", str(workers), "-n", str(rounds)], timeout=1500)
+    finally:
+        shutil.rmtree(base, ignore_errors=True)
+    mevs = [e for e in jlines(out) if e.get("kind") == "many"]
+    if rc != 0 or len(mevs) != rounds:
+        ck.violation("harness-crash", {"kind": "crash", "mode": "many"}, {"rc": rc, "tail": out[-3000:]})
+        return ck.finish()
+    dist["many"] = {"rounds": rounds, "modules_per_round": kmods, "workers": workers, "entries_compared": sum(e["ref_files"] for e in mevs)}
+    many_cases = sum(e["mods"] for e in mevs)
+    for e in mevs:
+        if e["diffs"] or e["extra_files"] or e["ref_files"] != e["got_files"]:
+            report("property-fails", {"kind": "property-fails", "part": "many", "class": "nondeterministic-entry"},
+                   {"oracle": "one process compiled %d different modules from %d goroutines into one cache directory: the directory differs from the one a sequential "
+                              "compilation of the same modules produces (the entry of a module must depend on the module and the settings alone)" % (e["mods"], e["workers"]),
+                    "event": e})
+        if e["wrong_results"]:
+            report("property-fails", {"kind": "property-fails", "part": "many", "class": "wrong-result"},
+                   {"oracle": "a later runtime over the concurrently written directory computed a wrong result or failed: [module, expected, got]", "event": e})
+        elif e["errs"]:
+            report("property-fails", {"kind": "property-fails", "part": "many", "class": "compile-error"},
+                   {"oracle": "compiling through the cache directory reported errors", "event": e})
+
     # ---------------------------------------------------------------- (b)-(e) directory
     base = tempfile.mkdtemp(prefix="c13_", dir=WORK)
     try:
@@ -515,7 +541,7 @@ def run(tier, seed):
             report("model-differs", {"kind": "model-differs", "part": "planted", "class": ev["what"], "model_class": lst[i + 1]},
                    {"why": "a planted entry was treated differently from the model (0 used, 1 discarded+recompiled, 2 reported, 3 panic; model says %d)" % lst[i + 1],
                     "event": ev}, no_input=not any(fs_oracle(ev, refs[ev["mod"]])))
-    ck.cases = nevals + len(fcases) + len(pcases)
+    ck.cases = nevals + len(fcases) + len(pcases) + many_cases
     seen = set()
     for c in cases:
         if c["ser_ok"]:
